@@ -1,0 +1,113 @@
+"""Verification hooks (only imported when WARNER_PYTHON_SPAKE2_VERIF_TRACE names a file).
+
+Records every public call on SPAKE2_A / SPAKE2_B / SPAKE2_Symmetric instances -- constructor
+arguments, the bytes the entropy function returned, start / finish / serialize /
+from_serialized arguments and results -- as JSON lines, so that an external model can be run
+on the same operations.  It changes no behaviour: every wrapper calls the original and
+returns (or re-raises) exactly what it produced.
+"""
+import json, os, threading
+from binascii import hexlify
+from . import spake2 as _sp
+from .groups import IntegerGroup
+
+_PATH = os.environ.get("WARNER_PYTHON_SPAKE2_VERIF_TRACE")
+_LOCK = threading.Lock()
+_COUNT = [0]
+
+
+def _hx(b):
+    return hexlify(b).decode("ascii") if isinstance(b, bytes) else None
+
+
+def _emit(rec):
+    with _LOCK:
+        with open(_PATH, "a") as f:
+            f.write(json.dumps(rec) + "\n")
+
+
+def _sid(obj):
+    return getattr(obj, "_verif_sid", None)
+
+
+def _group_desc(g):
+    if isinstance(g, IntegerGroup):
+        return {"kind": "int", "p": str(g.p), "q": str(g.q), "g": str(g.Base._e)}
+    return {"kind": type(g).__name__}
+
+
+def _params_desc(p):
+    return {"group": _group_desc(p.group), "M": _hx(p.M_str), "N": _hx(p.N_str), "S": _hx(p.S_str)}
+
+
+def _outcome(f, *a, **k):
+    try:
+        r = f(*a, **k)
+    except BaseException as e:
+        return None, e
+    return r, None
+
+
+def _wrap_init(klass):
+    orig = klass.__init__
+
+    def __init__(self, password, *args, **kwargs):
+        ent = kwargs.get("entropy_f", os.urandom)      # os.urandom is the constructor's own default
+        chunks = []
+
+        def recording(n, _ent=ent, _chunks=chunks):
+            b = _ent(n)
+            _chunks.append(_hx(b))
+            return b
+        kwargs = dict(kwargs, entropy_f=recording)
+        with _LOCK:
+            _COUNT[0] += 1
+            self._verif_sid = _COUNT[0]
+        orig(self, password, *args, **kwargs)
+        self._verif_chunks = chunks
+        if getattr(self, "_verif_restoring", False) or _sp.__dict__.get("_verif_in_restore"):
+            return
+        ids = (getattr(self, "idA", None), getattr(self, "idB", None)) if klass is not _sp.SPAKE2_Symmetric else (self.idSymmetric, b"")
+        _emit({"op": "new", "sid": _sid(self), "side": self.side.decode(), "pw": _hx(self.pw), "idA": _hx(ids[0]), "idB": _hx(ids[1]),
+               "params": _params_desc(self.params)})
+    klass.__init__ = __init__
+
+
+def _wrap_method(klass, name):
+    orig = getattr(klass, name)
+
+    def method(self, *a):
+        before = len(getattr(self, "_verif_chunks", []))
+        r, e = _outcome(orig, self, *a)
+        rec = {"op": name, "sid": _sid(self), "args": [_hx(x) for x in a],
+               "entropy": getattr(self, "_verif_chunks", [])[before:],
+               "result": _hx(r) if e is None else None, "error": type(e).__name__ if e is not None else None}
+        _emit(rec)
+        if e is not None:
+            raise e
+        return r
+    setattr(klass, name, method)
+
+
+def _wrap_restore(klass):
+    orig = klass.from_serialized.__func__
+
+    def from_serialized(cls, data, params=_sp.DefaultParams):
+        _sp._verif_in_restore = True
+        try:
+            r, e = _outcome(orig, cls, data, params)
+        finally:
+            _sp._verif_in_restore = False
+        _emit({"op": "restore", "sid": _sid(r) if e is None else None, "side": cls.side.decode(), "data": _hx(data),
+               "params": _params_desc(params), "error": type(e).__name__ if e is not None else None})
+        if e is not None:
+            raise e
+        return r
+    klass.from_serialized = classmethod(from_serialized)
+
+
+for _k in (_sp.SPAKE2_A, _sp.SPAKE2_B, _sp.SPAKE2_Symmetric):
+    _wrap_init(_k)
+    _wrap_restore(_k)
+for _name in ("start", "finish", "serialize"):
+    _wrap_method(_sp._SPAKE2_Base, _name)
